@@ -27,6 +27,147 @@ func floatLit(e ast.Expr) (string, bool) {
 	return "", false
 }
 
+// numConsts: every numeric constant declared in the package, at package level or inside a function (name -> literal)
+func numConsts(p *pkgSrc) map[string]string {
+	m := map[string]string{}
+	for _, fn := range p.sortedFiles() {
+		ast.Inspect(p.files[fn], func(n ast.Node) bool {
+			gd, ok := n.(*ast.GenDecl)
+			if !ok || gd.Tok != token.CONST {
+				return true
+			}
+			for _, s := range gd.Specs {
+				vs := s.(*ast.ValueSpec)
+				for i, nm := range vs.Names {
+					if i < len(vs.Values) {
+						if l, ok := floatLit(vs.Values[i]); ok {
+							if old, dup := m[nm.Name]; dup && old != l {
+								m[nm.Name] = "?" // two constants of one name with different values: not resolvable by name
+							} else {
+								m[nm.Name] = l
+							}
+						}
+					}
+				}
+			}
+			return true
+		})
+	}
+	return m
+}
+
+// numOf: a numeric literal, or an identifier that names a numeric constant
+func numOf(e ast.Expr, consts map[string]string) (string, bool) {
+	if l, ok := floatLit(e); ok {
+		return l, true
+	}
+	if id, ok := e.(*ast.Ident); ok {
+		if l, ok := consts[id.Name]; ok && l != "?" {
+			return l, true
+		}
+	}
+	if pe, ok := e.(*ast.ParenExpr); ok {
+		return numOf(pe.X, consts)
+	}
+	return "", false
+}
+
+// reachFuncs: fd and the functions of the package it calls, to a small depth
+func reachFuncs(p *pkgSrc, fd *ast.FuncDecl, depth int, seen map[string]bool) []*ast.FuncDecl {
+	if fd == nil || fd.Body == nil || seen[fd.Name.Name] {
+		return nil
+	}
+	seen[fd.Name.Name] = true
+	out := []*ast.FuncDecl{fd}
+	if depth == 0 {
+		return out
+	}
+	ast.Inspect(fd.Body, func(n ast.Node) bool {
+		ce, ok := n.(*ast.CallExpr)
+		if !ok {
+			return true
+		}
+		name := ""
+		switch f := ce.Fun.(type) {
+		case *ast.Ident:
+			name = f.Name
+		case *ast.SelectorExpr:
+			name = f.Sel.Name
+		}
+		var target *ast.FuncDecl
+		cnt := 0
+		for _, g := range p.allFuncs() {
+			if g.Name.Name == name && g.Body != nil {
+				target = g
+				cnt++
+			}
+		}
+		if cnt == 1 {
+			out = append(out, reachFuncs(p, target, depth-1, seen)...)
+		}
+		return true
+	})
+	return out
+}
+
+// lessThanConsts: the numeric constants that the result of a call is compared with by < or <= in fd and what it calls
+func lessThanConsts(p *pkgSrc, fd *ast.FuncDecl, consts map[string]string) []string {
+	set := map[string]bool{}
+	for _, g := range reachFuncs(p, fd, 2, map[string]bool{}) {
+		ast.Inspect(g.Body, func(n ast.Node) bool {
+			be, ok := n.(*ast.BinaryExpr)
+			if _, isCall := func() (ast.Expr, bool) {
+				if !ok {
+					return nil, false
+				}
+				c, is := be.X.(*ast.CallExpr)
+				return c, is
+			}(); ok && isCall && (be.Op == token.LSS || be.Op == token.LEQ) {
+				// a distance (the result of a call, abs(a-b)) compared with a constant
+				if l, ok := numOf(be.Y, consts); ok {
+					set[l] = true
+				}
+			}
+			return true
+		})
+	}
+	var out []string
+	for l := range set {
+		out = append(out, l)
+	}
+	sort.Strings(out)
+	return out
+}
+
+// convertedConsts: the numeric constants handed to mmToTwips (or a one-argument function of the package around it) in
+// fd and what it calls
+func convertedConsts(p *pkgSrc, fd *ast.FuncDecl, consts map[string]string) []string {
+	set := map[string]bool{}
+	for _, g := range reachFuncs(p, fd, 2, map[string]bool{}) {
+		ast.Inspect(g.Body, func(n ast.Node) bool {
+			ce, ok := n.(*ast.CallExpr)
+			// mmToTwips(c), or a wrapper of the package around it: f(c) with a single argument
+			if id, isIdent := func() (*ast.Ident, bool) {
+				if !ok {
+					return nil, false
+				}
+				i, is := ce.Fun.(*ast.Ident)
+				return i, is
+			}(); ok && isIdent && len(ce.Args) == 1 && p.funcDecl("", id.Name) != nil {
+				if l, ok := numOf(ce.Args[0], consts); ok {
+					set[l] = true
+				}
+			}
+			return true
+		})
+	}
+	var out []string
+	for l := range set {
+		out = append(out, l)
+	}
+	return out
+}
+
 func localConst(fd *ast.FuncDecl, name string) (string, bool) {
 	var res string
 	found := false
@@ -66,8 +207,11 @@ func singleReturnBinary(fd *ast.FuncDecl, op token.Token) (string, bool) {
 	if _, ok := be.X.(*ast.Ident); !ok {
 		return "", false
 	}
-	return floatLit(be.Y)
+	return numOf(be.Y, pkgNumConsts)
 }
+
+// pkgNumConsts: the numeric constants of the package being translated
+var pkgNumConsts = map[string]string{}
 
 func genPageConsts(repo string) (string, error) {
 	p, err := loadPkg(filepath.Join(repo, "pkg/document"))
@@ -75,6 +219,7 @@ func genPageConsts(repo string) (string, error) {
 		return "", err
 	}
 	consts := p.stringConsts()
+	pkgNumConsts = numConsts(p)
 	var b strings.Builder
 	b.WriteString("From Coq Require Import ZArith List String.\nImport ListNotations.\nOpen Scope Z_scope.\nOpen Scope string_scope.\n\n")
 
@@ -167,19 +312,31 @@ func genPageConsts(repo string) (string, error) {
 	}
 
 	// tolerance, min, max
-	tol, ok := localConst(p.funcDecl("", "identifyPageSize"), "tolerance")
-	if !ok {
-		return "", fmt.Errorf("identifyPageSize: const tolerance not found")
+	// by use, not by name: the constant sizes are compared with (identifyPageSize, GetPageSettings), and the two
+	// constants that validatePageSettings converts to twips
+	tols := lessThanConsts(p, p.funcDecl("", "identifyPageSize"), pkgNumConsts)
+	if len(tols) != 1 {
+		return "", fmt.Errorf("identifyPageSize: %d constants used as a tolerance (one expected): %v", len(tols), tols)
 	}
-	mn, ok1 := localConst(p.funcDecl("", "validatePageSettings"), "minSize")
-	mx, ok2 := localConst(p.funcDecl("", "validatePageSettings"), "maxSize")
-	if !ok1 || !ok2 {
-		return "", fmt.Errorf("validatePageSettings: minSize/maxSize not found")
+	tol := tols[0]
+	bounds := convertedConsts(p, p.funcDecl("", "validatePageSettings"), pkgNumConsts)
+	if len(bounds) != 2 {
+		return "", fmt.Errorf("validatePageSettings: %d constants converted to twips (minimum and maximum expected): %v", len(bounds), bounds)
 	}
-	gtol, ok := localConst(p.funcDecl("Document", "GetPageSettings"), "tolerance")
-	if !ok {
-		return "", fmt.Errorf("GetPageSettings: const tolerance not found")
+	b0, okb0 := decimalScaled(bounds[0], 3)
+	b1, okb1 := decimalScaled(bounds[1], 3)
+	if !okb0 || !okb1 {
+		return "", fmt.Errorf("validatePageSettings: bounds have more than 3 decimals")
 	}
+	mn, mx := bounds[0], bounds[1]
+	if len(b0) > len(b1) || (len(b0) == len(b1) && b0 > b1) {
+		mn, mx = bounds[1], bounds[0]
+	}
+	gtols := lessThanConsts(p, p.funcDecl("Document", "GetPageSettings"), pkgNumConsts)
+	if len(gtols) != 1 {
+		return "", fmt.Errorf("GetPageSettings: %d constants used as a tolerance (one expected): %v", len(gtols), gtols)
+	}
+	gtol := gtols[0]
 	gtu, okg := decimalScaled(gtol, 3)
 	if !okg {
 		return "", fmt.Errorf("GetPageSettings tolerance precision")
